@@ -89,7 +89,30 @@ def form_case(ctx, form, kw=None):
     ctx.record({"form": form}, True)
 
 
-PARA = ["\n\n", "\n \n", "\n\t\n", "\n", "\r\n\r\n", "\n\n\n", " \n"]
+PARA = ["\n\n", "\n \n", "\n\t\n", "\n", "\r\n\r\n", "\n\n\n", " \n",
+        # line/paragraph separators and spaces that Python's str methods (splitlines, isspace, strip)
+        # treat as breaks/whitespace but XML does not
+        "\u2028", "\u2029", "\x85", "a\u2028b", "\u3000", "\xa0", "\u2009", "\u2003\u2003"]
+UNISPACE = ["\u3000", "\xa0", "\u2009", "\u2028", "\u2029", "\x85", "\u1680", "\u205f"]
+
+
+def refs_only(rng, form):
+    """Labels / hints made of references separated only by non-XML Unicode spaces (`${a}\u3000${b}`)."""
+    names = [r["name"] for r in form["survey"] if "name" in r and not r.get("type", "").startswith(("begin", "end"))
+             and r.get("type") in ("text", "integer", "decimal", "string", "int")]
+    if len(names) < 2:
+        return
+    for row in form["survey"]:
+        if row.get("type") in ("note", "text") and rng.random() < 0.5:
+            others = [n for n in names if n != row.get("name")]
+            if len(others) < 2:
+                continue
+            a, b = rng.sample(others, 2)
+            sep = rng.choice(UNISPACE)
+            for k in list(row):
+                if k.split("::")[0] in ("label", "hint"):
+                    row[k] = "${" + a + "}" + sep + "${" + b + "}" + rng.choice(["", sep])
+
 
 
 def multiline(rng, form):
@@ -118,6 +141,9 @@ def explore(ctx, factor, bs):
         if rng.random() < 0.35:
             multiline(rng, form)
             ctx.count("multiline_text")
+        if rng.random() < 0.25:
+            refs_only(rng, form)
+            ctx.count("refs_only_unicode_space")
         form_case(ctx, form)
 
 
